@@ -32,3 +32,11 @@ Proof. exact (compile_deterministic sites_insensitive_prop). Qed.
 Lemma readdir_sites_insensitive :
   forallb (fun s => negb (is_order_sensitive s)) MapSites.readdir_sites = true.
 Proof. vm_compute. reflexivity. Qed.
+
+(* THE obligation that breaks when a compilation writes its configuration: no
+   assignment to a field of utils.Params is reachable from the compile roots
+   (except the symbol table of intern()) - hypothesis params_readonly of
+   Lang/HistProof.v history_independent, on the regenerated inventory *)
+Lemma params_readonly_inventory :
+  forallb param_write_allowed MapSites.param_writes = true.
+Proof. vm_compute. reflexivity. Qed.
